@@ -166,18 +166,24 @@ class Application(object):
         """Release the current serving (request and response)."""
         req = cherrypy.serving.request
 
-        cherrypy.engine.publish('after_request')
-
         try:
-            req.close()
-        except Exception:
-            cherrypy.log(traceback=True, severity=40)
-
-        cherrypy.serving.clear()
-        # The ExceptionTrapper may still have to report an error for this
-        # request: let it honour the request's own setting rather than
-        # the default of the Request class.
-        cherrypy.serving.released_show_tracebacks = req.show_tracebacks
+            try:
+                cherrypy.engine.publish('after_request')
+            finally:
+                # A failing 'after_request' listener must not keep the
+                # request from being closed ...
+                try:
+                    req.close()
+                except Exception:
+                    cherrypy.log(traceback=True, severity=40)
+        finally:
+            # ... and whatever happened above, this thread is done with
+            # the request: nothing of it may be left for the next one.
+            cherrypy.serving.clear()
+            # The ExceptionTrapper may still have to report an error for
+            # this request: let it honour the request's own setting rather
+            # than the default of the Request class.
+            cherrypy.serving.released_show_tracebacks = req.show_tracebacks
 
     def __call__(self, environ, start_response):
         """Call a WSGI-callable."""
